@@ -57,32 +57,41 @@ Proof. intros n. split; [exact (itoa_port_ok n)|exact (itoa_nonneg_digits n)]. Q
 Theorem C20_default_port : default_port = itoa 5222 /\ default_port = [53; 50; 50; 50]%N.
 Proof. exact default_port_is_5222. Qed.
 
-(* T6: ws: / wss: prefix => WebSocket transport for clients (address untouched),
-   refusal for components; every other address => TCP transport dialling
-   ensure_port addr 5222, for both constructors. *)
+(* T6: an address with a ws / wss scheme - the letters in any case, followed by
+   "://" (s_sep) - gives the WebSocket transport for clients (address untouched)
+   and a refusal for components; every other address gives the TCP transport
+   dialling ensure_port addr 5222, for both constructors.  [lower] is the ASCII
+   lower case of a byte; sch_ws = "ws", sch_wss = "wss". *)
 Theorem C20_T6_scheme : forall a : str,
-  (exists r, a = s_ws ++ r) \/ (exists r, a = s_wss ++ r) ->
+  (exists u r, a = u ++ s_sep ++ r /\ (map lower u = sch_ws \/ map lower u = sch_wss)) ->
   client_transport a = WebSocket a /\ component_transport a = NotSupported.
 Proof. exact T6_scheme. Qed.
 
 Theorem C20_T6_no_scheme : forall a : str,
-  (forall r, a <> s_ws ++ r) -> (forall r, a <> s_wss ++ r) ->
+  (forall u r, a = u ++ s_sep ++ r -> map lower u <> sch_ws /\ map lower u <> sch_wss) ->
   client_transport a = Tcp (ensure_port a 5222) /\
   component_transport a = Tcp (ensure_port a 5222).
 Proof. exact T6_other. Qed.
 
+(* the WebSocket transport reports itself secure exactly for the wss scheme, in any case *)
+Theorem C20_ws_secure : forall a : str,
+  ws_is_secure a = true <-> exists u r, a = u ++ s_sep ++ r /\ map lower u = sch_wss.
+Proof. exact ws_is_secure_spec. Qed.
+
 (* T1..T6 combined: what both constructors dial, per host form ([dials a h p]: both
    return the TCP transport whose address splits into exactly host h and port p).
-   A host named "ws"/"wss" followed by ":port" IS a ws:/wss: address (the two
-   clauses of the property overlap there, C20_ws_named_host); an IPv6 literal
-   never starts with 'w'. *)
+   host:port is a URL only when the port starts with "//" (no port number does);
+   an IPv6 literal never starts with 'w' or 'W'. *)
 Theorem C20_dial_host_without_port : forall h : str,
   name_or_v4 h = true -> dials h h default_port.
 Proof. exact dial_T1. Qed.
 Theorem C20_dial_host_with_port : forall h p : str,
   name_or_v4 h = true -> port_ok p = true ->
-  h <> [119; 115]%N -> h <> [119; 115; 115]%N -> dials (h ++ c_colon :: p) h p.
+  has_prefix [c_slash; c_slash] p = false -> dials (h ++ c_colon :: p) h p.
 Proof. exact dial_T2. Qed.
+Theorem C20_dial_host_with_numeric_port : forall h p : str,
+  name_or_v4 h = true -> digits p = true -> dials (h ++ c_colon :: p) h p.
+Proof. exact dial_T2_numeric. Qed.
 Theorem C20_dial_bracketed_v6_without_port : forall x : str,
   v6 x = true -> dials (c_lbr :: x ++ [c_rbr]) x default_port.
 Proof. exact dial_T3. Qed.
@@ -92,10 +101,27 @@ Proof. exact dial_T4. Qed.
 Theorem C20_dial_bare_v6 : forall x : str,
   v6 x = true -> starts_w x = false -> dials x x default_port.
 Proof. exact dial_T5. Qed.
-Theorem C20_ws_named_host : forall p : str,
-  client_transport ([119; 115]%N ++ c_colon :: p) = WebSocket ([119; 115]%N ++ c_colon :: p) /\
-  client_transport ([119; 115; 115]%N ++ c_colon :: p) = WebSocket ([119; 115; 115]%N ++ c_colon :: p).
-Proof. exact ws_host_with_port. Qed.
+(* a host called "ws" or "wss" with a port is dialled like any other host *)
+Theorem C20_ws_named_host : forall p : str, digits p = true ->
+  dials (sch_ws ++ c_colon :: p) sch_ws p /\ dials (sch_wss ++ c_colon :: p) sch_wss p.
+Proof. exact ws_named_host_dials. Qed.
+
+(* the certificate checker (NewChecker) accepts every form and dials the same
+   host:port ([checks a h p]: accepted, host h, dial address splits into h and p) *)
+Theorem C20_checker_host_without_port : forall h : str,
+  name_or_v4 h = true -> checks h h default_port.
+Proof. exact check_T1. Qed.
+Theorem C20_checker_host_with_port : forall h p : str,
+  name_or_v4 h = true -> port_ok p = true -> checks (h ++ c_colon :: p) h p.
+Proof. exact check_T2. Qed.
+Theorem C20_checker_bracketed_v6_without_port : forall x : str,
+  v6 x = true -> checks (c_lbr :: x ++ [c_rbr]) x default_port.
+Proof. exact check_T3. Qed.
+Theorem C20_checker_bracketed_v6_with_port : forall x p : str,
+  v6 x = true -> port_ok p = true -> checks (c_lbr :: x ++ c_rbr :: c_colon :: p) x p.
+Proof. exact check_T4. Qed.
+Theorem C20_checker_bare_v6 : forall x : str, v6 x = true -> checks x x default_port.
+Proof. exact check_T5. Qed.
 
 (* non-vacuity: the hypotheses hold of real addresses and the conclusions compute.
    "a-1.example." / "fe80::1%eth0" / "::ffff:1.2.3.4" / port "65535" *)
@@ -103,6 +129,7 @@ Definition ex_name : str := s_ [97;45;49;46;101;120;97;109;112;108;101;46].
 Definition ex_v6z : str := s_ [102;101;56;48;58;58;49;37;101;116;104;48].
 Definition ex_v6m : str := s_ [58;58;102;102;102;102;58;49;46;50;46;51;46;52].
 Definition ex_port : str := s_ [54;53;53;51;53].
+Definition ex_WSS : str := s_ [87;115;83].   (* "WsS" *)
 Example C20_example :
   name_or_v4 ex_name = true /\ v6 ex_v6z = true /\ v6 ex_v6m = true /\ port_ok ex_port = true /\
   client_transport ex_name = Tcp (ex_name ++ c_colon :: default_port) /\
@@ -111,8 +138,12 @@ Example C20_example :
   split_host_port (c_lbr :: ex_v6z ++ c_rbr :: c_colon :: default_port) = SplitOk ex_v6z default_port /\
   component_transport (c_lbr :: ex_v6m ++ c_rbr :: c_colon :: ex_port)
     = Tcp (c_lbr :: ex_v6m ++ c_rbr :: c_colon :: ex_port) /\
-  client_transport (s_wss ++ ex_name) = WebSocket (s_wss ++ ex_name) /\
-  component_transport (s_ws ++ ex_name) = NotSupported /\
+  client_transport (ex_WSS ++ s_sep ++ ex_name) = WebSocket (ex_WSS ++ s_sep ++ ex_name) /\
+  ws_is_secure (ex_WSS ++ s_sep ++ ex_name) = true /\
+  component_transport (sch_ws ++ s_sep ++ ex_name) = NotSupported /\
+  client_transport (sch_ws ++ c_colon :: ex_port) = Tcp (sch_ws ++ c_colon :: ex_port) /\
+  checker_params (c_lbr :: ex_v6m ++ c_rbr :: c_colon :: ex_port)
+    = Some (c_lbr :: ex_v6m ++ c_rbr :: c_colon :: ex_port, ex_v6m) /\
   (* outside the statement: bare IPv6 directly followed by ":port" *)
   ensure_port (ex_v6m ++ c_colon :: ex_port) 5222
     = c_lbr :: (ex_v6m ++ c_colon :: ex_port) ++ c_rbr :: c_colon :: default_port.
@@ -133,3 +164,10 @@ Print Assumptions C20_dial_bracketed_v6_without_port.
 Print Assumptions C20_dial_bracketed_v6_with_port.
 Print Assumptions C20_dial_bare_v6.
 Print Assumptions C20_ws_named_host.
+Print Assumptions C20_ws_secure.
+Print Assumptions C20_dial_host_with_numeric_port.
+Print Assumptions C20_checker_host_without_port.
+Print Assumptions C20_checker_host_with_port.
+Print Assumptions C20_checker_bracketed_v6_without_port.
+Print Assumptions C20_checker_bracketed_v6_with_port.
+Print Assumptions C20_checker_bare_v6.
